@@ -197,8 +197,22 @@ namespace HipVerif.Slots
 
 /-! ### Shared helpers -/
 
-inductive IStep where | front | back deriving DecidableEq, Repr
-inductive IFin where | drop | leak deriving DecidableEq, Repr
+/-- one pull on a `Drain` / `IntoIter`: what the types DEFINE (`next`, `next_back`) and the provided
+methods as std's default implementations derive them (`nth(k)` = `k` times `next` dropping the item,
+then `next`; `skip(k).next()` and the second pull of `step_by(k+1)` are `nth(k)`; `rev().next()` is
+`next_back`) -/
+inductive IStep where
+  | front | back
+  | nth (k : Nat)
+  | nthBack (k : Nat)
+  deriving DecidableEq, Repr
+
+/-- how the iterator ends: dropped, forgotten, or consumed by value through a provided method
+(`last`, `count`, `fold`/`for_each`, `rfold` — all of them std's `fold` loops over `next` /
+`next_back`, after which the iterator is dropped) -/
+inductive IFin where
+  | drop | leak | last | count | fold | rfold
+  deriving DecidableEq, Repr
 
 /-- the caller creates `n` values -/
 def mkVals : Nat → St → List Nat × St
